@@ -211,8 +211,13 @@ class DataPacketReceiver(Elaboratable):
                         source.first          .eq(1)
                     ]
 
-                    # Move to receiving data.
-                    m.next = "RECEIVE_PAYLOAD"
+                    # Move to receiving data. A zero-length payload has no data words: the word that
+                    # follows the DPP start framing is already its (word-aligned) CRC.
+                    with m.If(header.dw1[16:] == 0):
+                        m.d.ss += previous_valid.eq(0b1111)
+                        m.next = "CHECK_CRC32"
+                    with m.Else():
+                        m.next = "RECEIVE_PAYLOAD"
 
                 # If our data is valid and we're -not- a start of DPP, this isn't for us.
                 # Go back to watching for data.
